@@ -21,7 +21,8 @@ def features(r):
             "ftarget": r.choice(["none", "float", "callable", "int", "callable_int"]),
             "gtol_callable": r.random() < 0.3,
             "scaler": r.choice(["none", "none", "none", "const"]),
-            "update": r.choice(["none", "none", "none", "identity"])}
+            "update": r.choice(["none", "none", "none", "identity", "rescale", "reweight"]),
+            "consistent": True, "switch_at": r.randint(1, 4)}
 
 
 def run(tier: str, seed: int) -> int:
@@ -30,7 +31,7 @@ def run(tier: str, seed: int) -> int:
     return run_property(
         PROP, "harness.props.c04", THEOREMS, MODULES, cases, tier, seed,
         rule="random runs over the configuration lattice (maxiter from 0, maxfun from 1, maxls, ftol, gtol float/callable, "
-             "ftarget None/float/callable, stopping callbacks, scaler, identity update); each replayed through the Lean shell "
+             "ftarget None/float/callable, stopping callbacks, scaler, identity update and objective redefinitions on the fly — rescaling, re-weighting — under a target); each replayed through the Lean shell "
              "model bit for bit and cross-checked message-against-state; non-trivial = at least one iteration performed",
         assumptions=["objectives finite-valued on the box (no NaN)", "maxls >= 1"])
 
